@@ -86,6 +86,84 @@ def fn_in_impl(src, impl_head, name):
     if i < 0: raise TranslateError("%r not found" % impl_head)
     return find_fn(src[i:], name)
 
+def gen_package_feerate_output(pk, strategies, L):
+    """PackageTemplate::compute_package_feerate (target feerate of externally funded claims: every
+    `FeerateStrategy` arm x previous feerate known / unknown) and PackageTemplate::compute_package_output
+    (output value + feerate of self-funded malleable claims).  `match` and `if let .. { return .. }` that falls
+    through to the function's tail are outside rs2lean's statement subset, so the skeleton is pinned here (by the
+    parsed AST for compute_package_output, by text for the strategy `match`) and every expression in it is
+    translated by rs2lean; any other shape is a TRANSLATE-ERROR."""
+    # --- compute_package_feerate -------------------------------------------------------------------------
+    params, ret, body = find_fn(pk, 'compute_package_feerate', after='impl PackageTemplate')
+    ps = [n for n, t in parse_params(params)]
+    if ps != ['fee_estimator', 'conf_target', 'feerate_strategy']:
+        raise TranslateError("compute_package_feerate signature changed: %s" % ps)
+    if one(ret) != '-> u32': raise TranslateError("compute_package_feerate return type changed: %s" % one(ret))
+    b = strip_comments(body)
+    if len(re.findall(r'\bmatch\b', b)) != 1: raise TranslateError("compute_package_feerate: expected exactly one `match`")
+    mm = re.search(r'match feerate_strategy\s*\{', b)
+    if not mm: raise TranslateError("compute_package_feerate: `match feerate_strategy` missing")
+    mend = match_brace(b, mm.end() - 1)
+    mk = lambda extra: Emitter(methods={'bounded_sat_per_1000_weight': lambda r, a: '(boundedSatPer1000Weight est)'},
+                               fields={'self.feerate_previous': 'feerate_previous'},
+                               env=dict({'fee_estimator': '()', 'conf_target': '()'}, **extra))
+    seen = {}
+    for pat, ex in split_arms(b[mm.end():mend - 1]):
+        mp = re.fullmatch(r'FeerateStrategy::([A-Za-z]+)', pat)
+        if not mp or mp.group(1) in seen: raise TranslateError("compute_package_feerate: arm pattern %r" % pat)
+        seen[mp.group(1)] = mk({}).e(parse_expr(ex))
+    if sorted(seen) != sorted(strategies): raise TranslateError("compute_package_feerate: arms %s" % sorted(seen))
+    sel = '(match feerate_strategy with\n' + '\n'.join('    | .%s => %s' % (lc(v), seen[v]) for v in strategies) + ')'
+    pseudo = b[:mm.start()] + 'STRATEGY_SELECT__' + b[mend:]
+    L.append('/-- mirrors package.rs PackageTemplate::compute_package_feerate (translated: the skeleton around the')
+    L.append('    `match feerate_strategy`, and each of its arms; `feerate_previous` = `self.feerate_previous`, 0 = the claim')
+    L.append('    was never issued; `est` = the raw fee-estimator answer).  u32 arithmetic is rendered over Nat: exact as long')
+    L.append('    as `feerate_estimate * 5` does not overflow a u32. -/')
+    L.append('def computePackageFeerate (feerate_previous : Nat) (feerate_strategy : FeerateStrategy) (est : Nat) : Nat :=')
+    L.append('  ' + mk({'STRATEGY_SELECT__': sel}).block(parse_block(pseudo)))
+    L.append('')
+    # --- compute_package_output --------------------------------------------------------------------------
+    params, ret, body = find_fn(pk, 'compute_package_output', after='impl PackageTemplate')
+    ps = [n for n, t in parse_params(params)]
+    if ps != ['predicted_weight', 'dust_limit_sats', 'feerate_strategy', 'conf_target', 'fee_estimator', 'logger']:
+        raise TranslateError("compute_package_output signature changed: %s" % ps)
+    if one(ret) != '-> Option<(u64, u64)>': raise TranslateError("compute_package_output return type changed: %s" % one(ret))
+    blk = parse_block(strip_comments(body))
+    stmts, tail = list(blk[1]), blk[2]
+    if tail != ('none',): raise TranslateError("compute_package_output: the fall-through result is not `None`")
+    if not stmts or stmts[-1][0] != 'expr' or stmts[-1][1][0] != 'if':
+        raise TranslateError("compute_package_output: last statement is not the `if self.feerate_previous != 0 {..} else {..}`")
+    if any(s[0] != 'let' for s in stmts[:-1]): raise TranslateError("compute_package_output: unexpected statement before the if")
+    top = stmts[-1][1]
+    def close_branch(x):
+        # a branch that may fall through continues with the function's tail `None` (nothing else follows the if)
+        if x[0] != 'block': raise TranslateError("compute_package_output: branch is not a block")
+        st = list(x[1])
+        if x[2] is not None:
+            if x[2][0] != 'iflet' or x[2][5] != ('unit',): raise TranslateError("compute_package_output: branch tail is not `if let .. { return .. }`")
+            st.append(('expr', x[2]))
+        for s in st:
+            if s[0] == 'expr' and not (s[1][0] == 'iflet' and s[1][5] == ('unit',)):
+                raise TranslateError("compute_package_output: unexpected statement in a branch")
+        return ('block', st + [('ret', ('none',))], None)
+    new = ('block', stmts[:-1] + [('expr', ('if', top[1], close_branch(top[2]), close_branch(top[3])))], None)
+    def fb(a):
+        if len(a) != 8: raise TranslateError("compute_package_output: feerate_bump call has %d arguments" % len(a))
+        return '(feerateBump %s %s %s %s %s est)' % tuple(a[:5])
+    def cf(a):
+        if len(a) != 5: raise TranslateError("compute_package_output: compute_fee_from_spent_amounts call has %d arguments" % len(a))
+        return '(computeFeeFromSpentAmounts %s %s est)' % tuple(a[:2])
+    em = Emitter(funs={'feerate_bump': fb, 'compute_fee_from_spent_amounts': cf},
+                 methods={'package_amount': lambda r, a: 'package_amount'},
+                 fields={'self.feerate_previous': 'feerate_previous'},
+                 env={'fee_estimator': '()', 'conf_target': '()', 'logger': '()', 'self': '()'})
+    L.append('/-- mirrors package.rs PackageTemplate::compute_package_output (translated; `package_amount` =')
+    L.append('    `self.package_amount()`, the `assert!(dust_limit_sats as i64 > 0)` precondition is not rendered; a branch')
+    L.append('    whose `if let .. { return .. }` does not fire continues with the function\'s tail `None`) -/')
+    L.append('def computePackageOutput (package_amount predicted_weight dust_limit_sats feerate_previous : Nat) (feerate_strategy : FeerateStrategy) (est : Nat) : Option (Nat × Nat) :=')
+    L.append('  ' + em.block(new))
+    L.append('')
+
 def main(out_path):
     pk = rd('lightning/src/chain/package.rs')
     ci = rd('lightning/src/chain/chaininterface.rs')
@@ -299,6 +377,8 @@ def main(out_path):
     L.append('def packageLocktime (current_height : Nat) (inputs : List PkgInput) : Nat :=')
     L.append('  ' + em.block(parse_block(b)))
     L.append('')
+    # ---- compute_package_feerate / compute_package_output (C07; appended, nothing above is changed) ----
+    gen_package_feerate_output(pk, strategies, L)
     L.append('end Ldk.Pkg')
     text = '\n'.join(L) + '\n'
     old = open(out_path).read() if os.path.exists(out_path) else None
